@@ -205,6 +205,7 @@ def c11(cx):
           note="1..3 servers, every banned subset, every pick order and failure pattern over <=5 attempts, replies with lists and "
                "migration orders, restarts; NeverSelectBanned asserted at every pick, LockFreeWhenIdle, BannedMonotone")
     cx.mc("MC_SyncReply", "MC_SyncReply.cfg", {"CDefects": "{}"}, workers=4, note="no reply shape reaches the parser's PANIC outcome")
+    lockcfg(cx, ["client", "glow"], violate_pkgs=("client", "glow"))
     r = cx.drv_ok("rounds", ["--only", "fault"])
     cx.validate("Trace_Round", "Trace_Round.cfg", r["trace"],
                 what="sync rounds against endpoints that refuse / reset / answer short / hang / sign wrongly / answer as rogue servers "
@@ -323,7 +324,93 @@ def c14(cx):
         raise __import__("core").Broken("the model finds the code's archive order unsafe but no real archive showed it: unreproduced counterexample")
 
 
-PLANS = {"C01": c01, "C02": c02, "C03": c03, "C04": c04, "C05": c05, "C06": c06, "C07": c07, "C08": c08, "C09": c09, "C10": c10, "C11": c11, "C12": c12, "C14": c14, "C15": c15, "C16": c16, "C17": c17, "C18": c18, "C19": c19, "C20": c20}
+def c13(cx):
+    cx.assumptions += ["absence of data races is decided by the specification only through the lock discipline (LockCFG: shared fields accessed only on paths "
+                       "where their mutex is held); the race detector on the replayed and randomized schedules is auxiliary: it observes the schedules that ran",
+                       "trace events are emitted inside the critical sections, so their order is the order of the lock: validation of that sequence by the "
+                       "sequential specification is the linearizability check",
+                       "the rotation thread cannot interfere with itself (one thread); 'rotate' as an interfering operation is the real thread, triggered by the clock"]
+    q = cx.tier == QUICK
+    cx.mc("MC_Conc", "MC_Conc.cfg", {"Defects": "{}", "MaxOps": 4 if q else 5},
+          note="collector, rotator and sync handler as pc-structured processes; in every gap every operation of the menu (ban, duplicate, report, clock); "
+               "CollectorNilDeref asserted, sequential invariants in every state")
+    lockcfg(cx, ["server", "glow", "client"])
+    r = cx.drv_ok("conc", ["--only", "gaps"], crash_violation=True)
+    if not r.get("crashed"):
+        cx.validate("Trace_Server", "Trace_C13.cfg", r["trace"],
+                    what="every yield point (collector, rotation decided / before lock, sync between sections, server-authorization between sections, "
+                         "authorize before peers, migrate validated, stats after unlock) x every interfering operation (ban, authorize, report, rotate, "
+                         "report for a just banned device), all actions strict")
+    r = cx.drv_ok("conc", ["--only", "random"], race=True, crash_violation=True, timeout=200)
+    if not r.get("crashed"):
+        cx.validate("Trace_Server", "Trace_C13.cfg", r["trace"],
+                    what="12 goroutines: registrations, server authorizations, migrations, equipment incl. bans, reports over UDP and direct, reads, "
+                         "clock jumps forcing rotations; built with -race")
+
+
+def lockcfg(cx, pkgs, violate_pkgs=("server", "glow")):
+    """Extract the lock control-flow graphs of the packages from the tree under test and let TLC walk every
+    path from every root; then check that the nesting edges found form an acyclic order."""
+    import json, os, re, subprocess
+    core = __import__("core")
+    exe = cx.build("lockcfg", tags="test verif")
+    out = os.path.join(cx.scratch, "LockData.tla")
+    r = subprocess.run([exe, "-repo", core.REPO, "-out", out, "-json", out + ".json", *pkgs],
+                       env=cx.env(), capture_output=True, text=True, timeout=300)
+    if r.returncode != 0:
+        raise core.Broken("lock CFG extraction failed: " + r.stderr[-2000:])
+    info = json.load(open(out + ".json"))
+    res = cx._tlc("LockCFG", cx.cfg("LockCFG.cfg", {}), {"LockData.tla": out}, 8, 600)
+    if "Model checking completed. No error has been found." not in res["out"] or res["errors"]:
+        raise core.Broken("LockCFG walk did not complete:\n" + "\n".join(res["out"].splitlines()[-30:]))
+    msgs = set()
+    for mm in re.finditer(r'<<\s*"LOCKCFG(-EDGE)?",.*?>>\s*(?=\n<<|\n[A-Z0-9]|\Z)', res["out"], re.S):
+        msgs.add(re.sub(r"\s+", " ", mm.group(0)))
+    edges = sorted({tuple(re.findall(r'"([^"]+)"', x)[1:3]) for x in msgs if '"LOCKCFG-EDGE"' in x})
+    viol, infos = [], []
+    for x in sorted(msgs):
+        if '"LOCKCFG-EDGE"' in x:
+            continue
+        parts = re.findall(r'"([^"]+)"', x)
+        kind = parts[1]
+        subject = x
+        in_scope = any(('"%s.' % p) in x for p in violate_pkgs)
+        if kind in ("relock", "unlock-unheld", "held-at-return", "held-at-exit") and in_scope:
+            viol.append(x)
+        elif kind == "unprotected" and any(parts[2].startswith(p + ".") for p in violate_pkgs) and cx.pid == "C13":
+            viol.append(x)
+        else:
+            infos.append(x)
+    cx.step("lockcfg", packages=list(pkgs), functions=info["functions"], blocks=info["blocks"], lock_ops=info["lock_ops"],
+            field_accesses=info["field_accesses"], roots=info["roots"], generated=res.get("generated"), distinct=res.get("distinct"),
+            wall_s=res["wall_s"], violations=len(viol), informational=len(infos), nesting_edges=[list(e) for e in edges])
+    cx.cov["states"] += res.get("distinct", 0)
+    cx.cov["transitions"] += res.get("generated", 0)
+    cx.cov["lockcfg"] = {"functions": info["functions"], "blocks": info["blocks"], "lock_ops": info["lock_ops"],
+                         "field_accesses": info["field_accesses"], "protected_fields": sorted(info["protected"]),
+                         "nesting_edges": [list(e) for e in edges], "informational": infos[:12]}
+    # acyclic lock order
+    cx.module_subst = {"Edges": "{" + ", ".join('<<"%s", "%s">>' % e for e in edges) + "}"}
+    ok, r2 = cx.mc("LockOrder", "LockOrder.cfg", {}, workers=1, expect_ok=False, note="nesting edges found by the walk form an acyclic order")
+    cx.module_subst = None
+    if not ok:
+        viol.append("LOCKCFG lock order is cyclic: " + str(edges))
+    findings = [f for f in core.known_findings()["findings"] if f["property"] == cx.pid and f.get("site")]
+    new = []
+    for v in viol:
+        hit = [f for f in findings if f["site"] in v]
+        if hit:
+            cx.known.append("%s: %s" % (hit[0]["id"], hit[0]["what"]))
+        else:
+            new.append(v)
+    if new:
+        p = os.path.join(cx.scratch, "lockcfg.txt")
+        open(p, "w").write("\n".join(new) + "\n")
+        cx.violation("lock discipline violated on a control-flow path of the tree under test: " + new[0][:400],
+                     files={"lockcfg.txt": p, "LockData.tla": out}, data=new)
+
+
+PLANS = {"C01": c01, "C02": c02, "C03": c03, "C04": c04, "C05": c05, "C06": c06, "C07": c07, "C08": c08, "C09": c09, "C10": c10, "C11": c11, "C12": c12, "C13": c13, "C14": c14, "C15": c15, "C16": c16, "C17": c17, "C18": c18, "C19": c19, "C20": c20}
 
 
 def replay(cx, path):
